@@ -459,8 +459,30 @@ func c04Judge(c *mon.Ctx, in *c04Case) {
 		default:
 			c.Count("table:agrees-with-digest")
 		}
+		// The transaction handed to the interpreter: the spent output travels ONLY in the
+		// previous output given to WithTx. The checked input itself either still carries
+		// what it carried at signing time (a spent-value / spent-script mutation is not
+		// mirrored on it) or, every other time, nothing at all (transaction re-parsed
+		// from its wire bytes, as a validator would receive it).
 		mtx := m.shape.Build()
 		mi := &m.shape.Ins[m.idx]
+		mtx.Inputs[m.idx].PreviousTxSatoshis = signed.Ins[i].PrevSats
+		mtx.Inputs[m.idx].PreviousTxScript = bscript.NewFromBytes(append([]byte{}, signed.Ins[i].PrevScript...))
+		mtxExt := mtx.ExtendedBytes()
+		if r.Bool() {
+			var perr error
+			wire := mtx.Bytes()
+			if !c.Try("bt.NewTxFromBytes", func() { mtx, perr = bt.NewTxFromBytes(wire) }) {
+				continue
+			}
+			if perr != nil {
+				c.Fault("a mutant transaction does not re-parse from its own bytes: " + perr.Error())
+				continue
+			}
+			c.Count("verified:tx-parsed-from-wire-bytes")
+		} else {
+			c.Count("verified:tx-with-signing-time-input-info")
+		}
 		acc, code, ok := c04Verify(c, mtx, m.idx, mi.PrevScript, mi.PrevSats, forkid)
 		if !ok {
 			continue
@@ -478,7 +500,7 @@ func c04Judge(c *mon.Ctx, in *c04Case) {
 		}
 		describe := func() string {
 			return fmt.Sprintf("%s (%s, %s) under %s, signed input %d -> %d: reference digest %x -> %x; signed tx(ext)=%s mutant tx(ext)=%s spent value %d script %x; interpreter: accepted=%v %s",
-				m.desc, m.class, m.rel, tn, i, m.idx, dOrig, dMut, hexShort(signed.Build().ExtendedBytes()), hexShort(mtx.ExtendedBytes()), mi.PrevSats, []byte(mi.PrevScript), acc, code)
+				m.desc, m.class, m.rel, tn, i, m.idx, dOrig, dMut, hexShort(signed.Build().ExtendedBytes()), hexShort(mtxExt), mi.PrevSats, []byte(mi.PrevScript), acc, code)
 		}
 		switch {
 		case m.class == "identity" && !acc:
@@ -493,11 +515,12 @@ func c04Judge(c *mon.Ctx, in *c04Case) {
 			if m.class != "identity" {
 				var ib [2]byte
 				binary.LittleEndian.PutUint16(ib[:], uint16(m.idx))
-				c.Distinct(prng.HashBytes(mtx.ExtendedBytes(), ib[:], []byte{t}))
-				if len(mtx.ExtendedBytes()) < 700 {
+				c.Distinct(prng.HashBytes(mtxExt, mi.PrevScript, binary.LittleEndian.AppendUint64(ib[:], mi.PrevSats), []byte{t}))
+				if len(mtxExt) < 700 {
 					c.Sample("C04:"+exp+":"+m.class, 1, func() any {
 						return map[string]any{"hash_type": tn, "signed_via": in.Via, "spent_output": kind, "signed_input": i, "mutation": m.desc, "class": m.class + "/" + m.rel,
-							"signed_tx_extended_hex": hex.EncodeToString(signed.Build().ExtendedBytes()), "mutant_tx_extended_hex": hex.EncodeToString(mtx.ExtendedBytes()),
+							"signed_tx_extended_hex": hex.EncodeToString(signed.Build().ExtendedBytes()), "mutant_tx_extended_hex": hex.EncodeToString(mtxExt),
+							"mutant_spent_output":        map[string]any{"satoshis": mi.PrevSats, "script_hex": hex.EncodeToString(mi.PrevScript)},
 							"reference_digest_unchanged": wantValid, "interpreter_accepted": acc, "table_cell": string(cell)}
 					})
 				}
@@ -559,7 +582,7 @@ func init() {
 		ID: "C04",
 		Rule: "A case = one input signed through the library (tx.FillInput + unlocker.Simple with the requested hash type; tx.FillAllInputs + unlocker.Getter for ALL|FORKID), private key from the PRNG (RFC 6979 signatures), spent output P2PKH or P2PKH-inscription (OP_FALSE OP_IF 'ord' OP_1 <type> OP_0 <payload> OP_ENDIF suffix); other inputs/outputs arbitrary (nil/empty/filled scripts, boundary values). " +
 			"enumerated: every shape 1..5 inputs x 0..5 outputs x every signed position x the six FORKID and the six legacy hash types (spent-output kind alternating); random: further shapes up to 6x6 (quick 420, thorough 39,000 cases, 1 in 6 via FillAllInputs). " +
-			"Per case: the signed object is executed with Engine.Execute(WithTx, WithAfterGenesis, WithForkID iff the type has FORKID) and must be accepted; then EVERY single-field mutant (version, locktime, each input's txid / vout / sequence, other inputs' unlocking script, each output's value / script, output inserted (new or duplicate) / removed at every position, input inserted / removed at every position with the signed index re-mapped, spent value, spent script by OP_NOP append/prepend or inscription payload / content-type change) is executed: accepted <=> refsighash digest of the mutant == digest of the original. " +
+			"Per case: the signed object is executed with Engine.Execute(WithTx(tx, i, spentOutput), WithAfterGenesis, WithForkID iff the type has FORKID) and must be accepted; then EVERY single-field mutant (version, locktime, each input's txid / vout / sequence, other inputs' unlocking script, each output's value / script, output inserted (new or duplicate) / removed at every position, input inserted / removed at every position with the signed index re-mapped, spent value, spent script by OP_NOP append/prepend or inscription payload / content-type change) is executed: accepted <=> refsighash digest of the mutant == digest of the original. The spent output reaches the interpreter only through WithTx's previous output (a spent-value/script mutation is never mirrored on the input); every other mutant transaction is first re-parsed from its wire bytes so that its inputs carry no previous-output information at all. " +
 			"The static commitment table (field x {ALL,NONE,SINGLE} x ANYONECANPAY x algorithm) is asserted against the digest decision where unambiguous (disagreement = monitor fault). The signature is also checked with go-bk ECDSA against the reference digest. " +
 			"distinct_nontrivial = distinct (mutant extended bytes, signed index, hash type) whose interpreter verdict was compared with the reference decision and agreed, plus distinct freshly signed transactions accepted.",
 		Assum: []string{"reference digests from /verif/internal/refsighash (validated on every run against the 1,000 node sighash vectors); script code = the spent script verbatim (P2PKH / inscription scripts contain no OP_CODESEPARATOR and not their own signature)",
